@@ -214,8 +214,25 @@ def run(R):
     # ------------------------------------------------------------------ PRV.1 aggregate
     R.ob('C18.PRV.1', 'aggregate: agg_sv[k] = max(agg_sv.get(k, 0), v) - the accumulator reads the container it writes')
     ag = ctx(R, SV + '.aggregate')
+    def _is_agg(e):
+        if self_attr(e, 'agg_sv'):
+            return True
+        return isinstance(e, ast.Name) and alias_text(ag, e) == 'self.agg_sv'
+
+    def _as_max(v):
+        """the two operands when v is max(a, b) or the conditional expression that picks the larger of a and b; else None"""
+        if isinstance(v, ast.Call) and isinstance(v.func, ast.Name) and v.func.id == 'max' and len(v.args) == 2:
+            return list(v.args)
+        if isinstance(v, ast.IfExp) and isinstance(v.test, ast.Compare) and len(v.test.ops) == 1:
+            a, b, op = v.test.left, v.test.comparators[0], v.test.ops[0]
+            ta, tb, tbody, telse = ast.unparse(a), ast.unparse(b), ast.unparse(v.body), ast.unparse(v.orelse)
+            if isinstance(op, (ast.Lt, ast.LtE)) and (tbody, telse) == (tb, ta):
+                return [a, b]
+            if isinstance(op, (ast.Gt, ast.GtE)) and (tbody, telse) == (ta, tb):
+                return [a, b]
+        return None
     ast_stores = [n for n in ag.cfg.nodes if n.kind == 'stmt' and isinstance(n.ast, ast.Assign)
-                  and any(isinstance(t, ast.Subscript) and self_attr(t.value, 'agg_sv') for t in n.ast.targets)]
+                  and any(isinstance(t, ast.Subscript) and _is_agg(t.value) for t in n.ast.targets)]
     if not ast_stores:
         R.fail('C18.PRV.1', ag.qual + ' :: entry-wise maximum', ag.qual, 'def aggregate', 'aggregate() does not merge entry by entry with max(): a vector heard later '
                'can lower the aggregate of the suppression period', site(ag, ag.f.node))
@@ -224,14 +241,16 @@ def run(R):
         key = ast.unparse(tgt.slice)
         v = st.ast.value
         inst = f'{ag.qual} :: {norm(st.ast)}'
-        if not (isinstance(v, ast.Call) and isinstance(v.func, ast.Name) and v.func.id == 'max' and len(v.args) == 2):
+        ops_ = _as_max(v)
+        if ops_ is None:
             R.fail('C18.PRV.1', inst, ag.qual, st.ast, 'the merged value is not the maximum of the stored and the heard value', site(ag, st.ast))
             continue
         reads = []
-        for a in v.args:
+        for a in ops_:
             for s in ag.sources(st, a):
                 if s.kind == 'expr' and isinstance(s.expr, ast.Call) and callee_attr(s.expr) == 'get':
-                    reads.append((ast.unparse(s.expr.func.value), ast.unparse(s.expr.args[0]) if s.expr.args else None))
+                    base_ = s.expr.func.value
+                    reads.append(('self.agg_sv' if _is_agg(base_) else ast.unparse(base_), ast.unparse(s.expr.args[0]) if s.expr.args else None))
         loopv = [n for n in ag.cfg.nodes if n.kind == 'for']
         if reads == [('self.agg_sv', key)]:
             R.ok('C18.PRV.1', inst, site(ag, st.ast), 'max(agg_sv.get(k), v)')
@@ -253,7 +272,9 @@ def run(R):
     ntests = [t for t in ot.cfg.nodes if t.kind == 'test' and ast.unparse(t.ast) == 'necessary']
     inst = ot.qual + ' :: suppression decision'
     probs = []
-    if len(sends) != 1 or len(ntests) != 1:
+    if len(sends) == 1 and not ntests:
+        R.defer('on_timer: the suppression decision is not kept in a flag named `necessary` (restructured; C18.MPT.3 cannot be read)')
+    elif len(sends) != 1 or len(ntests) != 1:
         probs.append((f'{len(sends)} send(s) / {len(ntests)} tests of `necessary`', ot.f.node))
     else:
         (sn, sc) = sends[0]
@@ -300,7 +321,7 @@ def run(R):
     if probs:
         for (what, construct) in probs:
             R.fail('C18.MPT.3', inst, ot.qual, construct if not isinstance(construct, ast.AsyncFunctionDef) else 'def on_timer', what, site(ot, construct))
-    else:
+    elif ntests:
         R.ok('C18.MPT.3', inst, site(ot, ntests[0].ast))
     # ------------------------------------------------------------------ PRV.2 new_data / express_sync_interest
     R.ob('C18.PRV.2', 'new_data adds exactly 1, stores it under the own id and arms the timer; express_sync_interest encodes every local entry')
